@@ -128,6 +128,11 @@ func failFuncs() map[string]jet.Func {
 			}
 			return reflect.Value{}
 		},
+		// a function that takes no arguments at all and says so
+		"noargs": func(a jet.Arguments) reflect.Value {
+			a.RequireNumOfArguments("noargs", 0, 0)
+			return reflect.ValueOf("no-args-taken")
+		},
 		// Go code that writes through the Runtime it is handed (as the reference interpreter's rtWrite does)
 		"rtWrite": func(a jet.Arguments) reflect.Value {
 			for i := 0; i < a.NumOfArguments(); i++ {
